@@ -78,6 +78,10 @@ pub struct GenCfg {
     /// strings from the full character set (printing properties)
     pub wild_strings: bool,
     pub extern_funcs: bool,
+    /// indices into SIGS usable in this case (empty = all)
+    pub sigs: Vec<usize>,
+    /// also generate facts whose arity differs from the signature of their name
+    pub off_arity: bool,
 }
 
 impl Default for GenCfg {
@@ -96,6 +100,8 @@ impl Default for GenCfg {
             strict_bool_ops: true,
             wild_strings: false,
             extern_funcs: false,
+            sigs: vec![],
+            off_arity: true,
         }
     }
 }
@@ -229,13 +235,42 @@ pub fn gen_any(t: &mut Tape, cfg: &GenCfg, depth: usize) -> Term {
     }
 }
 
-pub fn gen_sig(t: &mut Tape) -> (&'static str, &'static [Ty]) {
-    let i = t.pick(SIGS.len());
-    SIGS[i]
+pub fn gen_sig(t: &mut Tape, cfg: &GenCfg) -> (&'static str, &'static [Ty]) {
+    if cfg.sigs.is_empty() {
+        let i = t.pick(SIGS.len());
+        SIGS[i]
+    } else {
+        let i = t.pick(cfg.sigs.len());
+        SIGS[cfg.sigs[i] % SIGS.len()]
+    }
+}
+
+/// a small per-case vocabulary makes joins and recursion likely
+pub fn gen_sig_subset(t: &mut Tape) -> Vec<usize> {
+    let n = t.range(2, 5);
+    (0..n).map(|_| t.pick(SIGS.len())).collect()
 }
 
 pub fn gen_fact(t: &mut Tape, cfg: &GenCfg) -> Pred {
-    let (name, tys) = gen_sig(t);
+    let (name, tys) = gen_sig(t, cfg);
+    if cfg.off_arity && t.chance(1, 6) {
+        // same name, other arity: the signature's columns plus extra ones, or one column less.
+        // Such facts must never match a predicate of the declared arity.
+        let mut terms: Vec<Term> = tys.iter().map(|ty| gen_const(t, *ty, cfg)).collect();
+        if terms.len() >= 2 && t.chance(1, 3) {
+            terms.pop();
+        } else {
+            let extra = t.range(1, 2);
+            for _ in 0..extra {
+                let ty = *t.choose(&[Ty::Int, Ty::Str, Ty::Bool]);
+                terms.push(gen_const(t, ty, cfg));
+            }
+        }
+        return Pred {
+            name: name.to_string(),
+            terms,
+        };
+    }
     if cfg.typed || t.chance(3, 4) {
         Pred {
             name: name.to_string(),
@@ -255,7 +290,7 @@ pub fn gen_fact(t: &mut Tape, cfg: &GenCfg) -> Pred {
 pub type Env = BTreeMap<String, Ty>;
 
 pub fn gen_body_pred(t: &mut Tape, cfg: &GenCfg, env: &mut Env) -> Pred {
-    let (name, tys) = gen_sig(t);
+    let (name, tys) = gen_sig(t, cfg);
     let mut terms = vec![];
     for ty in tys {
         if t.chance(2, 3) {
@@ -310,7 +345,7 @@ pub fn gen_rule_body(t: &mut Tape, cfg: &GenCfg, min_preds: usize) -> (Vec<Pred>
 
 pub fn gen_rule(t: &mut Tape, cfg: &GenCfg) -> Rule {
     let (body, exprs, env) = gen_rule_body(t, cfg, 1);
-    let (name, tys) = gen_sig(t);
+    let (name, tys) = gen_sig(t, cfg);
     let mut terms = vec![];
     for ty in tys {
         let candidates: Vec<&String> = env.iter().filter(|(_, vt)| *vt == ty).map(|(n, _)| n).collect();
